@@ -5,7 +5,8 @@
 //!            already up when the run starts (other values are for the model only)
 //!         T <src> <delay_us> <fuel> <prog> <cmds> <vars> <text> <sleep_us>
 //!            a second thread raises the flag after <delay_us>; every command invocation pauses
-//!            <sleep_us> so that endless programs produce a short log
+//!            <sleep_us> so that endless programs produce a short log; from the 150th invocation on a
+//!            command waits inside its run until the flag is up (bounds the log under any scheduling)
 //! output: as c03, plus a 7th field: the flag's value after the run (T|F)
 #[path = "../scripted.rs"]
 mod scripted;
@@ -21,6 +22,7 @@ use std::sync::Arc;
 fn run_case(f: &[&str], halt: Arc<AtomicBool>, sleep_us: u64) -> String {
     let shared = Rc::new(RefCell::new(Shared::default()));
     shared.borrow_mut().sleep_us = sleep_us;
+    shared.borrow_mut().wait_cap = if sleep_us > 0 { 150 } else { 0 };
     let cmds = parse_cmds(f[5], &shared);
     let context = make_context(&cmds, parse_vars(f[6]));
     let text = dec_str(f[7]);
